@@ -2,6 +2,8 @@
 
 from __future__ import annotations
 
+import ast
+
 from ..components import Guard, TestsPassed
 from ..entries import derive_scratch
 from ..index import AnalysisError, FuncInfo
@@ -35,6 +37,10 @@ INSUFFICIENT = [
     ("duplicate vertices (np.unique)", lambda s: ("ret", "<neighbour-diff>") in s[1] and ("ret", "numpy.unique") not in s[1], "adjacent-only",
      "duplicates are looked for among consecutive vertices of the given order only (difference of each row with its successor): "
      "a vertex repeated later in the list, e.g. (A, B, A, C), is accepted"),
+    ("simple polygon (_is_simple)", lambda s: ("ret", "<neighbour-diff>") in s[1] and ("ret", "isect_polygon") not in s[1], "local-criterion",
+     "the polygon is accepted as simple on a criterion computed from consecutive vertices only (signs of the turns at the corners), without "
+     "the intersection sweep: a cycle that turns the same way everywhere but winds around more than once (pentagram, {7/3} star) crosses "
+     "itself and is accepted"),
     ("convex position 2-D (_is_convex)", lambda s: ("ret", "<open-chain>") in s[1] and ("ret", "scipy.spatial.ConvexHull") not in s[1], "open-chain",
      "the turn test runs over consecutive pairs x[:-1], x[1:] of the ring of vertices only: the corner at the wrap-around of the ring is "
      "never tested, so a point inside the hull that happens to come first in the ring is accepted as a vertex of a convex polygon"),
@@ -47,7 +53,8 @@ INSUFFICIENT = [
 # validation tests of the confirmed tree that belong to no requirement of the table (confirmed by reading)
 BASELINE_EXTRA = [
     lambda s: "normal" in s[2],                                               # the given normal is orthogonal to the polygon
-    lambda s: s[1] <= {("ret", "<count:input>")} and set(s[2]) == {"vertices"} and not s[3],   # shape tests on the raw argument (.shape[1] in (2, 3))
+    lambda s: s[1] <= {("ret", "<count:input>"), ("ret", "numpy.array"), ("ret", "numpy.asarray"), ("ret", "builtins.len")}
+    and set(s[2]) == {"vertices"} and not s[3],   # shape tests on the raw argument (.shape[1] in (2, 3))
     lambda s: ("ret", "_calculate_signed_volume") in s[1],                    # positive volume of the core
 ]
 POLY = ["len(vertices) tests (shape, >= 3)", "duplicate vertices (np.unique)", "coplanarity (isclose under planar_tolerance)"]
@@ -66,6 +73,65 @@ SIZE_PARAMS = {
     "ConvexSpheropolygon": {"radius": "nonneg"}, "ConvexSpheropolyhedron": {"radius": "nonneg"},
 }
 SIZE_ATTR = {"radius": "_radius", "a": "_a", "b": "_b", "c": "_c"}
+
+
+# requirement -> provenance tag of the exhaustive test inside the predicate function that the constructor calls
+STRONG_IN_CALLEE = {
+    "simple polygon (_is_simple)": ("ret", "isect_polygon"),
+    "convex position 2-D (_is_convex)": ("ret", "scipy.spatial.ConvexHull"),
+}
+
+
+def verdict_names(index):
+    out = set()
+    for mname in ("coxeter.shapes.polygon", "coxeter.shapes.convex_polygon"):
+        m = index.modules.get(mname)
+        if m is not None:
+            out |= set(m.functions)
+    return out
+
+
+def _calls_strong(index, tags, strong):
+    """the test's value was returned by a module-level predicate that contains the exhaustive test"""
+    for t_ in tags:
+        if isinstance(t_, tuple) and t_[0] == "ret":
+            for mname in ("coxeter.shapes.polygon", "coxeter.shapes.convex_polygon"):
+                m = index.modules.get(mname)
+                f = m.functions.get(t_[1]) if m is not None else None
+                if f is not None and strong[1].split(".")[-1] in ast.unparse(f.node):
+                    return True
+    return False
+
+
+def _callee_accepts(index, tp, strong):
+    """'all-strong' when every path of the predicate that can return a true value has evaluated the exhaustive test;
+    ('weak', suffix, text) when a path accepts on a recognised-but-insufficient criterion; None when undecided."""
+    names = {t_[1] for (exc, sigs, ev) in tp.raises for s_ in sigs for t_ in s_[1] if isinstance(t_, tuple) and t_[0] == "ret"} & verdict_names(index)
+    fns = []
+    for mname in ("coxeter.shapes.polygon", "coxeter.shapes.convex_polygon"):
+        m = index.modules.get(mname)
+        if m is not None:
+            fns += [m.functions[n_] for n_ in names if n_ in m.functions]
+    decided = None
+    for f in fns:
+        # only predicates that contain the exhaustive test at all
+        tq = TestsPassed()
+        r = Interp(index, [tq]).run_entry(f, None)
+        rets = r["returns"]
+        if not any(strong in v.tags for (v, s_, n_) in rets):
+            continue
+        decided = "all-strong"
+        for (v, s_, n_) in rets:
+            if strong in v.tags:
+                continue
+            if v.has_const() and not v.const:
+                continue                      # early reject
+            path_tests = s_.comp[tq.name]
+            for (rq_, p_, sfx, why) in INSUFFICIENT:
+                if any(p_(sig) for sig in path_tests):
+                    return ("weak", sfx, why)
+            return None                        # an accepting path without the exhaustive test, criterion not recognised
+    return decided
 
 
 def run(index, tier="quick", seed=0) -> Result:
@@ -158,12 +224,29 @@ def run(index, tier="quick", seed=0) -> Result:
             pred = REQ[req]
             need = MIN_COUNT.get(req, 1)
             ok_all = True
+            passed_some = False
             for ex in exits:
                 nodes = {s[0] for s in ex if pred(s)}
                 if len(nodes) < need:
                     ok_all = False
+                else:
+                    passed_some = True
             controls = [(exc, ev) for (exc, sigs, ev) in tp.raises if any(pred(s) for s in sigs)]
             k = f"{label}:{req}"
+            if not ok_all and req in STRONG_IN_CALLEE:
+                # the test is a call of a module-level predicate: judge the predicate's own accepting paths.  An early *reject*
+                # (return False before the exhaustive test) is harmless; an early *accept* bypasses the test.
+                verdict = _callee_accepts(index, tp, STRONG_IN_CALLEE[req])
+                called = verdict_names(index)
+                via_call = all(any(any(isinstance(t_, tuple) and t_[0] == "ret" and t_[1] in called for t_ in s_[1]) and
+                                   (STRONG_IN_CALLEE[req] in s_[1] or _calls_strong(index, s_[1], STRONG_IN_CALLEE[req])) for s_ in ex) for ex in exits)
+                if verdict == "all-strong" and via_call:
+                    ok_all = True
+                    controls = controls or [(exc, ev) for (exc, sigs, ev) in tp.raises if exc == "ValueError"
+                                            and any(any(isinstance(t_, tuple) and t_[0] == "ret" and t_[1] in verdict_names(index) for t_ in s_[1]) for s_ in sigs)]
+                elif isinstance(verdict, tuple) and verdict[0] == "weak":
+                    res.bad("CT-2", k + ":" + verdict[1], f"{init.file}:{init.lineno}", f"{label}: {verdict[2]}")
+                    continue
             if not ok_all:
                 # recognise-then-judge: is there a validation test the table does not know (it may be an equivalent formulation)?
                 known_preds = [REQ[q_] for q_ in REQUIRED.get(cls.name, [])]
@@ -180,6 +263,10 @@ def run(index, tier="quick", seed=0) -> Result:
                 if weak:
                     res.bad("CT-2", k + ":" + weak[0][0], f"{init.file}:{init.lineno}", f"{label}: {weak[0][1]}")
                     continue
+                if passed_some and not unknown_tests:
+                    # some accepting paths run the test and others bypass it under a condition the table knows (a vertex count,
+                    # a flag): whether that condition makes the test unnecessary (a triangle is always simple) is not decided
+                    raise AnalysisError(f"CT-2: {label} bypasses the test `{req}` on some accepting paths under a condition the analysis cannot judge")
                 if unknown_tests:
                     raise AnalysisError(f"CT-2: {label} does not contain the recognised form of the test `{req}` but validates its vertices with "
                                         f"{len(unknown_tests)} test(s) the analysis does not know")
